@@ -207,6 +207,13 @@ for _p, _h in (("C03", "PointCharge"), ("C05", "Evals"), ("C06", "Density"), ("C
 for _p in ("C01", "C02", "C03", "C04", "C05", "C06", "C07", "C08", "C09", "C11", "C12", "C13", "C14", "C15", "C16", "C17", "C19", "C20"):
     CHECKS[_p].harnesses.append("contracts.overlap:ShellSetters")
 
+# normalisation of the contracted functions (every property is stated over "the normalised contracted functions"): the
+# contraction-norm contract of the shell class is discharged with every property about integrals or evaluations
+for _p in ("C01", "C02", "C03", "C04", "C05", "C06", "C07", "C08", "C09", "C11", "C12", "C14", "C15", "C16", "C17"):
+    for _h in ("contracts.overlap:AssignNormCont", "contracts.overlap:NormPrim"):
+        if _h not in CHECKS[_p].harnesses:
+            CHECKS[_p].harnesses.append(_h)
+
 # the public evaluation entry points (dispatch on the coordinate types, one-index assembly, block routines, orbital-derivative kernel)
 # are what every property about densities and density-derived fields calls first: their contracts are re-discharged with each
 EVAL_CHAIN = ["contracts.dispatch:Dispatch", "contracts.assembly:OneIndex", "contracts.deriv:EvalBlocks", "contracts.deriv:GeneralKernel@quick"]
